@@ -41,6 +41,8 @@ type Oblig struct {
 }
 
 type Runner struct {
+	curProp     string               // property being verified ("" = all): selects property-scoped guarded_by declarations
+	scopedTypes map[string]*TypeSpec // type + property -> type contract with the scoped declarations merged in
 	wantPostSnap bool // the contract under verification refers to the state after a call (mapsamesince)
 	atReturn bool  // finish() is evaluating the postconditions of the function under verification
 	curRets  []Val // results of the return being checked (set by finish)
